@@ -37,6 +37,9 @@ type syncIn struct {
 	Labels  map[string]string `json:"labels"`
 	Crash   int               `json:"crash"` // -1 none
 	Fail    int               `json:"fail"`  // -1 none
+	Skip    bool              `json:"skip_corrupted,omitempty"`
+	Corrupt []int             `json:"corrupt,omitempty"`            // present blocks whose local meta.json is unreadable
+	Conc    int               `json:"upload_concurrency,omitempty"` // > 1: chunk files of a block go out concurrently
 }
 
 type input struct {
@@ -167,6 +170,7 @@ func run(raw json.RawMessage) (common.Case, error) {
 	var steps []string
 	var obs []any
 	crashes, fails, uploads := 0, 0, 0
+	wasCorrupt := map[int]bool{}
 	cfgs := map[string]bool{}
 	for si, sy := range in.Syncs {
 		// local directory contents
@@ -177,13 +181,27 @@ func run(raw json.RawMessage) (common.Case, error) {
 			}
 			want[p] = true
 		}
+		corrupt := map[int]bool{}
+		for _, p := range sy.Corrupt {
+			if want[p] {
+				corrupt[p] = true
+			}
+		}
 		for i, s := range in.Blocks {
 			d := filepath.Join(tmp, cu.BlockULID(i).String())
 			_, err := os.Stat(d)
-			if want[i] && err != nil {
+			if want[i] && (err != nil || wasCorrupt[i]) {
+				os.RemoveAll(d)
 				if _, err := cu.WriteBlock(tmp, i, s); err != nil {
 					return c, err
 				}
+				wasCorrupt[i] = false
+			}
+			if want[i] && corrupt[i] {
+				if err := os.WriteFile(filepath.Join(d, "meta.json"), []byte("{broken"), 0o640); err != nil {
+					return c, err
+				}
+				wasCorrupt[i] = true
 			}
 			if !want[i] && err == nil {
 				os.RemoveAll(d)
@@ -204,6 +222,8 @@ func run(raw json.RawMessage) (common.Case, error) {
 			shipper.WithLabels(func() labels.Labels { return lset }),
 			shipper.WithUploadCompacted(sy.UC),
 			shipper.WithAllowOutOfOrderUploads(sy.OOO),
+			shipper.WithSkipCorruptedBlocks(sy.Skip),
+			shipper.WithUploadConcurrency(sy.Conc),
 			shipper.WithHashFunc(metadata.NoneFunc))
 		rerr, crashed, wait := cu.RunAction(rb, func() error { _, err := sh.Sync(ctx); return err })
 		teardown = append(teardown, func() { rb.Release(); wait(); root.Close() })
@@ -231,6 +251,35 @@ func run(raw json.RawMessage) (common.Case, error) {
 		mfAfter, mfAfterNums, _ := readMetaFile(tmp, env)
 
 		var cids, opsC, snapsC, opNames []string
+		// per attempted upload (in order): the order in which its chunk files went out; what a
+		// crash cut off follows in directory order
+		var attempt []int
+		chunkOrder := map[int][]uint64{}
+		for _, o := range ops {
+			k := env.ParseName(o.Name)
+			if _, ok := chunkOrder[k.Block]; !ok {
+				attempt = append(attempt, k.Block)
+				chunkOrder[k.Block] = nil
+			}
+			if k.File.Kind == "chunk" {
+				chunkOrder[k.Block] = append(chunkOrder[k.Block], k.File.N)
+			}
+		}
+		var orders []string
+		for _, bn := range attempt {
+			seen := map[uint64]bool{}
+			var l []string
+			for _, n := range chunkOrder[bn] {
+				l = append(l, common.N(n))
+				seen[n] = true
+			}
+			for j := range in.Blocks[bn].Chunks {
+				if !seen[uint64(j+1)] {
+					l = append(l, common.N(uint64(j+1)))
+				}
+			}
+			orders = append(orders, common.List(l))
+		}
 		for _, o := range ops {
 			k := env.ParseName(o.Name)
 			if k.File.Kind == "meta" && o.Kind == "upload" {
@@ -264,7 +313,7 @@ func run(raw json.RawMessage) (common.Case, error) {
 				}
 			}
 		}
-		if !ret && !crashed && sy.Crash < 0 && sy.Fail < 0 && len(sy.Labels) > 0 && c.GoPred == "" {
+		if !ret && !crashed && sy.Crash < 0 && sy.Fail < 0 && len(sy.Labels) > 0 && len(corrupt) == 0 && c.GoPred == "" {
 			// an undisturbed sync failed: a compacted block must be blocked by an overlap in the bucket
 			type rg struct{ a, b int64 }
 			var vis []rg
@@ -322,7 +371,14 @@ func run(raw json.RawMessage) (common.Case, error) {
 		} else if sy.Fail >= 0 {
 			fault = common.App("FailAt", common.Nat(sy.Fail))
 		}
-		cfg := common.App("mkcfg", common.List(present), common.Bool(sy.UC), common.Bool(sy.OOO), lbl, fault, common.List(cids))
+		var corr []string
+		for _, p := range sy.Corrupt {
+			if want[p] {
+				corr = append(corr, common.N(uint64(p)))
+			}
+		}
+		cfg := common.App("mkcfg", common.List(present), common.Bool(sy.UC), common.Bool(sy.OOO), lbl, fault, common.List(cids),
+			common.Bool(sy.Skip), common.List(corr), common.Bool(sy.Conc > 1), common.List(orders))
 		steps = append(steps, common.App("mkstep", cfg, common.Bool(ret), common.List(opsC), common.List(snapsC), mfAfter))
 		obs = append(obs, map[string]any{"sync": si, "crashed": crashed, "returned_nil": ret, "ops": opNames, "meta_file": mfAfterNums, "bucket_ops_total": rb.Counted()})
 		cfgs[fmt.Sprintf("uc=%v,ooo=%v", sy.UC, sy.OOO)] = true
@@ -426,11 +482,18 @@ func gen(r *rand.Rand, tier string, n int) []any {
 				}
 			}
 			r.Shuffle(len(sy.Present), func(a, b int) { sy.Present[a], sy.Present[b] = sy.Present[b], sy.Present[a] })
+			if r.Intn(4) == 0 {
+				sy.Conc = 2 + r.Intn(3)
+			}
 			switch k := r.Intn(10); {
 			case k < 4:
 				sy.Crash = r.Intn(4 + 4*len(sy.Present))
-			case k < 6:
+			case k < 6 && sy.Conc <= 1:
 				sy.Fail = r.Intn(4 + 4*len(sy.Present))
+			}
+			if r.Intn(8) == 0 && len(sy.Present) > 0 {
+				sy.Corrupt = []int{sy.Present[r.Intn(len(sy.Present))]}
+				sy.Skip = r.Intn(3) > 0
 			}
 			in.Syncs = append(in.Syncs, sy)
 		}
